@@ -152,8 +152,26 @@ def sqliteVal (v : Variant) (calls : List (List (Bytes × PyVal))) : Val :=
          .list ((clientIds t).map fun i => .list [exceptVal Val.ofNat (clientSize t i),
                                                    exceptVal pyVal (getClient idCodec t i)])]
 
+/-- `c16.ckpt keep [[round,tag],…]`: after every save the listing `[[round,tag],…]` and the latest
+`[round,tag]` (or `none`). Tags are the indices of the saves. -/
+def ckptVal (keep : Nat) (h : List (Nat × Nat)) : Val :=
+  let step := fun (acc : Dir Nat × List Val) (p : Nat × Nat) =>
+    let d := saveCkpt keep acc.1 p.1 p.2
+    let latest := match loadLatest d with
+      | some (s, r) => Val.list [Val.ofNat r, Val.ofNat s]
+      | none => Val.sym "none"
+    (d, acc.2 ++ [Val.list [Val.list (d.map fun q => Val.list [Val.ofNat q.1, Val.ofNat q.2]), latest]])
+  .list (h.foldl step (([] : Dir Nat), ([] : List Val))).2
+
 def handle (op : String) (args : List Val) : Option Val :=
   match op, args with
+  | "c16.ckpt", [keep, .list h] => do
+    let keep ← keep.toNat?
+    let h ← h.mapM fun p => match p with
+      | .list [r, t] => do pure (← r.toNat?, ← t.toNat?)
+      | _ => none
+    if h.any (fun p => p.1 ≥ 100000000) then some (.sym "err") else
+    some (ckptVal keep h)
   | "c16.enc", [v, x] => do
     let v ← variantOf v; let x ← pyOf x
     some (exceptVal mvalVal (encode v x))
